@@ -20,10 +20,10 @@ _FILES = ["harness/mqttproxy/zz_verif_c15_common_test.go", "harness/mqttproxy/zz
           "harness/mqttproxy/zz_verif_c15_gen_test.go"]
 HARNESSES = [
     dict(name="mqtt", pkg="pkg/object/mqttproxy", files=_FILES, run="TestVerifC15",
-         groups=["fan", "sess", "cpub", "gen"], timeout=420),
+         groups=["fan", "sess", "cpub", "gen", "slow"], timeout=420),
 ]
-GROUPS = {"fan": "(check_fan pinned)", "sess": "check_sess", "cpub": "check_cpub", "gen": "check_gen"}
-EXPLAIN = {"fan": "(explain_fan pinned)", "sess": "explain_sess", "cpub": "explain_cpub", "gen": "explain_gen"}
+GROUPS = {"fan": "(check_fan pinned)", "sess": "check_sess", "cpub": "check_cpub", "gen": "check_gen", "slow": "check_slow"}
+EXPLAIN = {"fan": "(explain_fan pinned)", "sess": "explain_sess", "cpub": "explain_cpub", "gen": "explain_gen", "slow": "explain_slow"}
 CASES = {"quick": 400, "thorough": 4000}
 RULE = ("cases: fan = populations of 2-5 raw clients (1-3 subscriptions each over 14 literal/+/# filters, QoS 0/1/2, some "
         "unregistered by the admin endpoint, some unsubscribing or disconnecting before the publish, nested filters below a node whose only subscriber leaves) x 1-3 HTTP publishes (QoS 0/1, rarely 2) on a real loopback broker; "
@@ -39,6 +39,8 @@ TRUSTED_BASE = [
     "filter/topic matching is the declarative MQTT matcher of EG.model.Topic (C14), independent of the code; the real TopicManager's "
     "single-subscription verdict is only cross-checked against it",
     "visit order of Go maps is not controllable: correspondence is existential over all visit orders / last-visited choices",
+    "group slow (a client that does not read for > 2.5 s while the broker's 50-slot write queue for it is full, then drains) "
+    "has no Coq model: SUBACK/PUBACK completeness and QoS 1 delivery are checked on the observations; the stall is a lower bound that can only miss",
     "group gen (MQTTProxy Init/Inherit behind a real admin API server, publish through the registered route) has no Coq model: "
     "only the delivery clause is checked on the observations",
     "the client publish limiter is C09's model (coq/model/RL.v) at elapsed time 0 (period chosen longer than the run)",
@@ -106,7 +108,7 @@ def encode(c):
             t = C("OPub", Z(op.get("qos", 0))) if k == "pub" else {"ack": "OAck", "await": "OAwait", "quiet": "OQuiet"}[k]
             out.append(Rec(ss_op=t, ss_recv=L([T(Z(a), Z(b), Z(m)) for a, b, m in st.get("recv") or []]),
                            ss_acked=Z(st.get("acked", -1)), ss_res=Z(_RES.get(st.get("res"), 3))))
-        return Rec(sc_subqos=Z(i["subqos"]), sc_steps=L(out), sc_bad=B(bool(o.get("bad")) or len(steps) != len(ops)))
+        return Rec(sc_subqos=Z(i["subqos"]), sc_start=Z(i.get("startid", 0)), sc_steps=L(out), sc_bad=B(bool(o.get("bad")) or len(steps) != len(ops)))
     if g == "cpub":
         pubs = i.get("pubs") or []
         ps = []
@@ -125,6 +127,11 @@ def encode(c):
         return Rec(cc_pipe=B(i["pipe"]), cc_req=Z(i["requestRate"]), cc_bytes=Z(i["bytesRate"]), cc_period=Z(1000000),
                    cc_pubs=L(ps), cc_calls=L([Z(x) for x in calls]), cc_pubacks=L([Z(x) for x in o.get("pubacks") or []]),
                    cc_eof=B(o.get("end") == "eof"), cc_bad=B(bool(o.get("bad")) or o.get("end") not in ("ok", "eof")))
+    if g == "slow":
+        return Rec(sl_full=B(o.get("full", False)), sl_subs_sent=Z(o.get("subs_sent", 0)), sl_subacks=Z(o.get("subacks", 0)),
+                   sl_ids=L([Z(x) for x in o.get("ids") or []]), sl_pubacks=L([Z(x) for x in o.get("pubacks") or []]),
+                   sl_http1=Z(o.get("http1", 0)), sl_q1=Z(o.get("q1", 0)),
+                   sl_q0sent=Z(o.get("q0sent", 0)), sl_q0recv=Z(o.get("q0recv", 0)), sl_bad=B(bool(o.get("bad"))))
     if g == "gen":
         return Rec(gc_subqos=Z(i["subqos"]),
                    gc_pubs=L([T(Z(p["gen"]), Z(p["qos"]), B(p["delivered"]), Z(p["status"])) for p in o.get("pubs") or []]),
